@@ -206,6 +206,60 @@ def r5_recorded_hash(ctx, F):
         ctx.violation("recorded-hash-source", tn.loc(), "ExecutionTrace::new must build ProgramInfo from the decoder's program hash")
 
 
+def r6_span_builder(ctx, F):
+    """the operation list handed to CodeBlock::new_span_with_decorators is exactly the builder's operations, whatever decorators
+    the builder holds (the MAST root must not depend on decorators); decorator-adding methods leave the operations untouched"""
+    from .mirsym import Interp, Agg, Term, Ptr, Opaque, deref, Unanalysable, PanicReached
+    adt = F.adt(r"^miden_assembly::assembler::span_builder::SpanBuilder$")
+    fields = [f["name"] for f in adt["variants"][0]["fields"]]
+    ctx.floor("span-builder-fields", len([f for f in fields if f in ("ops", "decorators", "epilogue")]), 3)
+
+    def builder(ops, decs, epi=()):
+        vals = {"ops": Agg(list(ops), "vec"), "decorators": Agg([Agg([p_, Term(d)], "tuple") for p_, d in decs], "vec"), "epilogue": Agg(list(epi), "vec"), "last_asmop_pos": 0}
+        return Agg([vals.get(n, Opaque(n)) for n in fields], "adt", adt["id"], adt["variants"][0]["name"])
+    base_ops = [Term("op1"), Term("op2"), Term("op3")]
+    for fname, by_value in (("extract_span_into", False), ("extract_final_span_into", True)):
+        fn = F.fn(r"span_builder::SpanBuilder::%s$" % fname)
+        epi = [Term("epi1")] if by_value else []
+        want = [repr(x) for x in base_ops + epi]
+        for decs in ([], [(3, "D")], [(0, "D")], [(1, "D"), (3, "E")], [(3 + len(epi), "D")]):
+            key = "%s|decorators=%s" % (fname, [p_ for p_, d in decs])
+            ctx.inst(key=key, nontrivial=bool(decs))
+            got = {}
+
+            def ns(I, a, f):
+                got["ops"] = [repr(x) for x in deref(a[0]).items]
+                got["decs"] = [repr(x) for x in deref(a[1]).items] if len(a) > 1 else []
+                return Opaque("span")
+            I = Interp(F)
+            I.overrides.append((re.compile(r"CodeBlock::new_span_with_decorators$|CodeBlock::new_span$"), ns))
+            sb = builder(base_ops, decs, epi)
+            try:
+                I.call(fn.id, [sb if by_value else Ptr([sb], 0), Ptr([Agg([], "vec")], 0)])
+            except (Unanalysable, PanicReached) as e:
+                ctx.violation("UNANALYSABLE|%s" % fname, fn.loc(), str(e)[:300])
+                continue
+            ok = got.get("ops") == want and len(got.get("decs", [])) == len(decs)
+            ctx.oblig(ok)
+            if not ok:
+                ctx.violation("span-ops-depend-on-decorators|%s" % fname, fn.loc(), "%s with decorators at positions %s builds the span from operations %s instead of %s: the program hash would depend on decorators (or debug mode)"
+                              % (fname, [p_ for p_, d in decs], got.get("ops"), want))
+    for fname in ("push_decorator", "push_advice_injector"):
+        fn = F.fn(r"span_builder::SpanBuilder::%s$" % fname)
+        ctx.inst(key=fname, nontrivial=True)
+        sb = builder(base_ops, [(1, "D")])
+        try:
+            Interp(F).call(fn.id, [Ptr([sb], 0), Opaque("decorator")])
+        except (Unanalysable, PanicReached) as e:
+            ctx.violation("UNANALYSABLE|%s" % fname, fn.loc(), str(e)[:300])
+            continue
+        d = dict(zip(fields, sb.items))
+        ok = [repr(x) for x in d["ops"].items] == [repr(x) for x in base_ops] and len(d["decorators"].items) == 2 and d["decorators"].items[-1].items[0] == 3
+        ctx.oblig(ok)
+        if not ok:
+            ctx.violation("decorator-api|%s" % fname, fn.loc(), "%s must leave the operations untouched and record the decorator at the current operation count: ops %s decorators %s" % (fname, d["ops"], d["decorators"]))
+
+
 def run(ctx, F):
     ctx.trusted += ["rustc MIR via mirfacts", "mirsym (exact integer evaluation of the accumulator methods)", "docs/src/design/programs.md batching rules as specification"]
     ctx.assumptions += ["hash values themselves are not computed; the accumulator is explored exhaustively over its finite abstract state space with three input classes (NOOP, non-zero opcode, immediate-carrying)"]
@@ -214,4 +268,5 @@ def run(ctx, F):
     ctx.run_rule("C08-R2", "opcode table injective and 7-bit; only Push carries an immediate; OP_BITS/GROUP_SIZE/BATCH_SIZE as specified", r2_opcodes, F)
     ctx.run_rule("C08-R3", "operation-batch accumulator explored exhaustively as a finite-state machine: acceptance equals the documented rules, no out-of-range slot, no immediate-carrying op last in a group, immediates never reused as op groups, op_counts and group values of into_batch match the layout", r3_automaton, F)
     ctx.run_rule("C08-R4", "debug mode and decorator instructions leave the operation sequence unchanged; the span hash flows from the operations only", r4_decorators, F)
+    ctx.run_rule("C08-R6", "SpanBuilder hands exactly its operations to the span constructor whatever decorators it holds; decorator-adding methods do not touch the operations", r6_span_builder, F)
     ctx.run_rule("C08-R5", "the hash recorded by an execution is the decoder's program hash and is compared with program.hash()", r5_recorded_hash, F)
